@@ -1135,8 +1135,6 @@ def nontrivial(hist):
 
 
 def run(rec):
-    # triage aid only: VERIF_ASSUME_KNOWN=key1,key2 treats proposed (not yet recorded) finding keys as recorded
-    rec.known_keys |= {k for k in os.environ.get('VERIF_ASSUME_KNOWN', '').split(',') if k}
     rec.rule = ('WSGI: bodies x Content-Length class (absent, empty, 0, exact, short, long) x server read style '
                 '(blocking, short reads) x every history up to length H over 15 operation shapes on req.bounded_stream, '
                 'pipelined bytes after the body; ASGI: bodies x every chunking (incl. empty chunks, missing body/more_body '
@@ -1294,7 +1292,6 @@ def _decode(o):
 
 
 def replay(rec, w):
-    rec.known_keys |= {k for k in os.environ.get('VERIF_ASSUME_KNOWN', '').split(',') if k}
     wit = _decode(w['witness'])
     hist = [tuple(op) for op in wit['history']]
     if hist and hist[-1] == ('read', None):
